@@ -255,7 +255,7 @@ PROPS = {
         not_yet_proved=[],
     ),
     "C20": dict(
-        extra_modules=["CstModel.Props.GenBuilder2"],   # Gen.b_*_raw: token / static_token / finish_node / finish as transcribed from the source
+        extra_modules=["CstModel.Props.GenIntern", "CstModel.Props.GenBuilder2"],   # Gen.b_*_raw: token / static_token / finish_node / finish as transcribed from the source
         tags=["C20", "C04", "C01"],   # "as if the failed token had never been offered" includes the cache's sharing and the finished tree
         runs=runs([("faults", "release")],
                   [("faults", "release"), ("faults", "lasso"), ("faults", "debug")]),
@@ -270,6 +270,7 @@ PROPS = {
         not_yet_proved=[],
     ),
     "C10": dict(
+        extra_modules=["CstModel.Props.GenIntern"],   # Gen.i_*: provided methods and forwarding impl of the interner traits, as transcribed
         runs=runs([("intern", "release"), ("intern", "lasso"), ("conc:intern", "lasso")],
                   [("intern", "release"), ("intern", "lasso"), ("intern", "debug"), ("intern", "lasso-debug"), ("conc:intern", "lasso"), ("conc:intern", "lasso-debug")]),
         rule="cases = raw-key probe batch + every intern sequence of length 4 (thorough 5) over {'', a, b, é, ab} per back end "
